@@ -92,7 +92,23 @@ func expectedPublic(kind string, pub any) string {
 }
 
 func init() {
-	regOp(&Op{Name: "keyload", Impl: func(a map[string]any) (res any) {
+	regOp(&Op{Name: "keyload", Impl: func(a map[string]any) any {
+		// under a deadline: a loader that does not return is a finding, not a stuck check
+		// (seeded change c15-ec-parameters-skip-loop-spins)
+		done := make(chan any, 1)
+		go func() { done <- keyloadImpl(a) }()
+		select {
+		case r := <-done:
+			return r
+		case <-time.After(20 * time.Second):
+			return map[string]any{"res": "hang"}
+		}
+	}})
+	props["C19"] = runC19
+}
+
+func keyloadImpl(a map[string]any) (res any) {
+	{
 		defer func() {
 			if r := recover(); r != nil {
 				res = map[string]any{"res": "panic"}
@@ -173,8 +189,7 @@ func init() {
 		}
 		out["sign_verify"] = sv
 		return out
-	}})
-	props["C19"] = runC19
+	}
 }
 
 func stdVerifyPEM(pubPEM, kind string, msg, sig []byte) bool {
@@ -261,9 +276,23 @@ func runC19(r *Runner, tier string, rng *Rng) {
 			modelForm = "bad"
 			feat += ":encrypted"
 		case 3:
-			text = pemOf("FOO BAR", []byte("not a key at all"))
+			// one to three well-armored blocks that are no key (labels other tools write next to keys:
+			// parameters, requests, revocation lists), alone or IN FRONT of a loadable key: the first
+			// block decides, and the loader returns (seeded change c15-ec-parameters-skip-loop-spins)
+			label := rng.Pick([]string{"FOO BAR", "EC PARAMETERS", "EC PARAMETERS", "DH PARAMETERS", "CERTIFICATE REQUEST", "X509 CRL"})
+			body := []byte("not a key at all")
+			if label == "EC PARAMETERS" {
+				body = []byte{0x06, 0x08, 0x2a, 0x86, 0x48, 0xce, 0x3d, 0x03, 0x01, 0x07} // OID prime256v1, as openssl ecparam writes it
+			}
+			reps := 1 + rng.Intn(3)
+			pre := strings.Repeat(pemOf(label, body), reps)
+			if rng.Bool() {
+				text = pre + text
+			} else {
+				text = pre
+			}
 			modelForm = "bad"
-			feat += ":foreign"
+			feat += fmt.Sprintf(":foreign%d", reps)
 		case 4:
 			text = "no pem here"
 			modelForm = "bad"
